@@ -30,8 +30,8 @@ def _p(module, text, note=None, technique=_T, **kw):
 PROPS = {
     "C01": _p("harness.c01",
               "Real scheduler/task/decorator code run symbolically on program families (trees, mixed step sequences, "
-              "DAGs, every yield-structure template x slot kind, re-entry, cancellation, caught faults, four calling "
-              "conventions, return/result()); item values and batch priorities are symbolic, so z3 decides every "
+              "DAGs, every yield-structure template x slot kind, re-entry, cancellation, caught faults, six calling "
+              "conventions incl. methods of a falsy instance, return/result()); item values and batch priorities are symbolic, so z3 decides every "
               "flush order (ties through a hash-order selector) and the equality of the outcome and of every value "
               "received at a yield with a sequential reference interpreter."),
     "C02": _p("harness.c02",
@@ -43,7 +43,8 @@ PROPS = {
     "C03": _p("harness.c03",
               "Monitors inside real task bodies: every yielded future computed at each resumption, no implicit "
               "flush forced by a premature resumption, tasks yielded together start in written order, orphans never "
-              "start, every awaited task computed exactly once, watchdog for lost wake-ups; chains of 1500 (C) / "
+              "start, every awaited task computed exactly once, watchdog for lost wake-ups, F-SEQ also with "
+              "COLLECT_PERF_STATS + KEEP_DEPENDENCIES on; chains of 1500 (C) / "
               "1100 (P) tasks in quick and 20000 on both builds in thorough."),
     "C04": _p("harness.c04",
               "At every scheduler flush event the harness walks the awaited computation: every uncompleted task has "
@@ -54,11 +55,13 @@ PROPS = {
               "Per batch identity at most one flush-body execution; never an empty/flushed/cancelled batch; never a "
               "flush after the innermost awaited computation completed; in yield-only families the flushed batch's "
               "symbolic priority is maximal among pending batches (tuple, overridden int and default priorities); "
-              "items completed exactly once by their flush; before/after events bracket.  One genuine defect is "
+              "items completed exactly once by their flush and the waiting task receives what the reference says; "
+              "before/after events bracket.  One genuine defect is "
               "recorded in known_findings.json (re-entrant double flush)."),
     "C06": _p("harness.c06",
               "Recording contexts at symbolic block positions/kinds/exit modes in two concurrently pending tasks "
-              "(plus child, grandchild, failing and synchronously called tasks inside the block): strict "
+              "(plus child, grandchild, failing and synchronously called tasks inside the block, and a synchronous "
+              "callee that dies in a context resume before the block): strict "
               "resume/pause alternation, active at every step of the owner and of tasks only it awaits, paused at "
               "foreign steps and flushes; NonAsyncContext fails the task iff the reference says it must be "
               "suspended inside the block."),
@@ -70,13 +73,14 @@ PROPS = {
     "C08": _p("harness.c08",
               "Histories [computation, canary] (thorough: three long) on one scheduler without reset: faulty "
               "programs, contexts whose k-th resume/pause raises, MAX_TASK_STACK_SIZE RuntimeError with pending "
-              "batches; get_active_task() checked at every step, after nested calls, after waiting for tasks "
+              "batches (also below a nested synchronous call); get_active_task() checked at every step, after nested calls, after waiting for tasks "
               "created elsewhere, and after return; scheduler stack empty; the canary behaves as on a fresh "
               "scheduler."),
     "C09": _p("harness.c09",
               "14 decorator kinds x 6 bindings x 4 argument spellings with symbolic arguments: every applicable "
               "calling convention returns what the undecorated body returns for the expected receiver, sync_fn is "
-              "used for the synchronous call, classification helpers agree with how the callable can be called."),
+              "used for the synchronous call, classification helpers agree with how the callable can be called; a "
+              "deduplicated body that re-enters itself with the same key."),
     "C10": _p("harness.c10",
               "Operation-code vectors (value, error, call, is_computed, set_value, set_error, reset_unsafe, "
               "subscribe good/raising) of length 3-5 on 8 future kinds against an explicit reference state machine "
@@ -89,10 +93,12 @@ PROPS = {
               "Two (thorough: three) callers inside a real computation with symbolic callee kind, spelling, "
               "arguments, delay and dirty(), symbolic priorities: identity of returned tasks equals the reference "
               "in-flight map evaluated at the call moment, body-run counter per key, shared result objects, re-run "
-              "after completion, empty table at the end."),
+              "after completion, empty table at the end; executions completed on another thread; executions that "
+              "end abnormally (failing context resume, raising clean-up)."),
     "C13": _p("harness.c13",
               "Call histories against reference caches: alru_cache (LRU order, capacity, key_fn, spellings, raising "
               "bodies, methods), acached_per_instance (independent instances, cache vanishes with the instance), "
+              "two calls in flight over the same flush for all three cache kinds, "
               "alazy_constant under a stub clock returning symbolic non-decreasing readings (expiry required beyond "
               "ttl, forbidden before, free at equality)."),
     "C14": _p("harness.c14",
@@ -106,28 +112,32 @@ PROPS = {
               "delivery; mode flag off before/after; synchronous call inside raises RuntimeError."),
     "C16": _p("harness.c16",
               "BOUNDED FORM of the property: two real threads whose execution is sequentialised at harness-visible "
-              "points (task steps, flush events); 8-11 symbolic bits choose where control is handed over; each "
-              "thread's outcome, batch compositions, context events, dedup counts and profiler buffer equal its "
-              "run alone.  True pre-emption between bytecodes, >2 threads and OS schedules are NOT covered.",
+              "points (task steps, flush events, get_priority, deduplicated bodies); a window of 4-6 symbolic bits at "
+              "a symbolic offset chooses where control is handed over and the second thread advances 1/3/6 points "
+              "per hand-over; programs use DebugBatchItem, contexts, deduplicate with dirty(), COLLECT_PERF_STATS, or "
+              "run in asyncio mode on their own loop; each thread's outcome, batch compositions, context events, "
+              "dedup counts and profiler buffer equal its run alone.  True pre-emption between bytecodes, >2 threads and OS schedules are NOT covered.",
               note=_BOUNDED + "  The second thread runs concrete values (CrossHair state is per thread)."),
     "C17": _p("harness.c17",
               "Generator bodies as vectors of <=4-5 codes (await item/const/task, Value, Value(None)) with "
               "symbolic values: list_of_generator, take_first(n) for all n incl. 0 followed by take_first(n2), "
-              "consumption counter, documented manual iteration with early-advance RuntimeError, exhausted "
+              "consumption counter, documented manual iteration with repeated early-advance RuntimeError, exhausted "
               "generator keeps raising StopIteration."),
     "C18": _p("harness.c18",
               "filter_traceback against an independent re-implementation over an alphabet built from the token "
               "lists read out of the current debug.py (truncated/corrupted runs, substring tokens, all sequences of "
               "<=5-7 lines over a 6-line alphabet); glued tracebacks and format_asynq_stack for depth x raise "
-              "position x re-raise position on both builds; str/repr/dump totality over 31 object states and "
+              "position x re-raise position (optionally after a computation that failed in a context resume) on both "
+              "builds; str/repr/dump totality over 31 object states and "
               "mid-run objects; format_error totality."),
     "C19": _p("harness.c19",
-              "5 target kinds x 6 replacement kinds x 5 activation styles x exit by exception x nested/sequential "
-              "second patch, with symbolic argument and return value: the four conventions reach the replacement "
+              "7 target kinds (static/class methods also through an instance) x 9 replacement kinds x 5 activation "
+              "styles x exit by exception x nested/sequential/repeated second patch, with symbolic argument and return value: the four conventions reach the replacement "
               "and agree, the original object is back afterwards."),
     "C20": _p("harness.c20",
               "(a) every path runs one of 12 program skeletons with default options and again with a symbolic "
-              "option subset (size <=2 of 19, or all on; time-based dumps forced) and compares outcome, flush "
+              "option subset (size <=2 of 19, or all on; time-based dumps forced; single options and all-on also with "
+              "both runs on fresh threads) and compares outcome, flush "
               "compositions, scheduler events, context events, reads, scheduler hygiene.  (b) every store into a "
               "C-typed numeric slot of the .pxd files is translated from the current source into an SMT-LIB range "
               "query under a stated clock contract, decided by z3 4.8, z3 5.1 and cvc5; sat models are replayed on "
